@@ -9,8 +9,15 @@ case = {"dim":d,
         "trials":[{"name":s,"vec":bool}..], "tests":[..],
         "x": X,                                      X ::= {"k":"int","dom":D,"e":E} | {"k":"add","a":X,"b":X}
                                                            | {"k":"sub","a":X,"b":X} | {"k":"scale","c":E,"x":X,"right":bool}
-                                                     (a - b and c * (...) on integrals: the leaf integrand reported in
-                                                      "leaves" carries the accumulated scalar factor)
+                                                           | {"k":"div","x":X,"c":E} | {"k":"rdiv","c":E,"x":X} | {"k":"neg","x":X}
+                                                           | {"k":"zero","sym":bool} | {"k":"sum","xs":[X..]}
+                                                     (the arithmetic of Integral / IntAdd is done by the real operators;
+                                                      every leaf reports its un-scaled lowered integrand "L" and, computed
+                                                      by this harness from the tree, the integrand it contributes "Leff";
+                                                      "coefs" maps the path of an operator node to its serialised scalar)
+        "raw_domain": [D'..]  (optional)             after construction the form object's `_domain` is replaced by the Union of
+                                                     these objects; D' ::= D | {"t":"rawdomain"} | {"t":"rawpatch","p":i}
+                                                     (the Domain objects themselves, not their interiors)
         "expect": {...}  (harness-side expectations, not used here except by the numeric oracle: "leaf_regions")
         "seed":n}
 D ::= {"t":"domain"} | {"t":"patch","p":i} | {"t":"face","p":i,"axis":a,"ext":e} | {"t":"bnd","n":name}
@@ -29,7 +36,10 @@ result = {"zero":bool                                   the constructor / the lo
           "kernels":[{"cls":str,"target":R,"M":[[sx..]..]}..]
           "oracle":{"ok":bool|None, ...}}  |  {"err":kind,"msg":..}
 R ::= {"t":"patch","p":name} | {"t":"face","p":name,"axis":a,"ext":e} | {"t":"bnd","p":name,"n":name}
-    | {"t":"iface",...}
+    | {"t":"iface",...}          (a kernel target may also be {"t":"union","of":[R..]}: raw objects only)
+
+A case {"kind":"probe","probe":name,...} calls one anchored function directly (error exits, Trace / Matrix / vector arms of
+TerminalExpr.eval, Integral flags): see run_probe.
 """
 import json
 import random
@@ -40,6 +50,10 @@ import ser
 
 
 class LeafError(Exception):
+    pass
+
+
+class RdivRefused(Exception):
     pass
 
 
@@ -139,7 +153,19 @@ class Ctx:
             return self.domain.boundary
         if t == "union":
             return Union(*[self.dom(x) for x in D["of"]])
+        if t == "rawdomain":
+            return self.domain
+        if t == "rawpatch":
+            return self.patches[D["p"]]
         raise ValueError(t)
+
+    def rawdom(self, D):
+        """an entry of a form object's `domain`: integral() / Functional() take interiors, a raw entry is kept as it is"""
+        if D["t"] == "patch":
+            return self.patches[D["p"]].interior
+        if D["t"] == "domain":
+            return self.domain.interior
+        return self.dom(D)
 
 
 OPS1 = ("grad", "div", "curl", "rot", "laplace", "hessian")
@@ -199,6 +225,13 @@ def ser_region(r):
     if isinstance(r, InteriorDomain):
         return {"t": "patch", "p": str(r.name)}
     raise ser.Unsupported("region %s" % type(r).__name__)
+
+
+def ser_target(t):
+    from sympde.topology.basic import Union
+    if isinstance(t, Union):
+        return {"t": "union", "of": [ser_region(x) for x in t.args]}
+    return ser_region(t)
 
 
 def members_of(d):
@@ -302,7 +335,7 @@ def numeric_oracle(case, out):
             if k not in integrand:
                 integrand[k] = []
                 order.append(r)
-            integrand[k].append(leaf["L"])
+            integrand[k].append(leaf.get("Leff", leaf["L"]))
     tests = [tuple(x) for x in out["tests"]]
     trials = [tuple(x) for x in out["trials"]]
     bad = []
@@ -318,6 +351,13 @@ def numeric_oracle(case, out):
     for kern in out["kernels"]:
         k = rkey(kern["target"])
         seen[k] = seen.get(k, 0) + 1
+        if kern["target"]["t"] == "union":
+            # only the corner case "the expression is zero" of a raw form object produces such a target
+            for r in kern["target"]["of"]:
+                seen[rkey(r)] = seen.get(rkey(r), 0) + 1
+            if any(e != {"k": "num", "p": 0, "q": 1} for row in kern["M"] for e in row):
+                bad.append({"what": "non-zero-kernel-on-a-union", "region": kern["target"]})
+            continue
         if k not in integrand:
             bad.append({"what": "kernel-on-foreign-region", "region": kern["target"]})
             continue
@@ -411,6 +451,191 @@ class ArmTracer:
 TRACER = None
 
 
+
+# ---------------------------------------------------------------------------- direct probes of anchored functions
+def run_probe(case):
+    """One direct call of an anchored function whose arm the form generator cannot reach (error exits, the Trace / Matrix /
+    vector arms of TerminalExpr.eval, the flags of Integral.__new__).  -> {"probe":name, "out":{...}} ; errors as an enum."""
+    from sympy.core.cache import clear_cache
+    clear_cache()
+    import sympy as sp
+    from sympde.expr import integral, TerminalExpr, LinearExpr
+    from sympde.expr.expr import Integral, IntAdd
+    from sympde.expr.basic import BasicExpr
+    from sympde.expr.evaluation import _get_trials_tests, _unpack_functions, _to_matrix_form
+    from sympde.topology import NormalVector, TangentVector, Interval, ProductDomain, Mapping
+    from sympde.topology.mapping import InterfaceMapping
+    from sympde.topology.space import trace_0, trace_1
+    import importlib
+    C = importlib.import_module("sympde.calculus")
+    ctx = Ctx(case)
+    name = case["probe"]
+    d = ctx.dim
+    res = {"probe": name}
+
+    def guarded(fn):
+        try:
+            return {"ok": fn()}
+        except ser.Unsupported as e:
+            return {"unsupported": str(e)[:200]}
+        except Exception as e:  # noqa
+            return {"exc": errkind(e)}
+
+    def sxs(x):
+        return ser_scalar(x)
+
+    if name == "integral-non-expr":
+        u, v = ctx.sf("u"), ctx.sf("v")
+        bad = {"tuple": sp.Tuple(u, v), "list": [u, v], "str": "u", "matrix": sp.Matrix([[u, v]]), "pytuple": (u, v)}[case["what"]]
+        res["out"] = guarded(lambda: type(integral(ctx.dom(case["dom"]), bad)).__name__)
+    elif name == "integral-bad-domain":
+        u = ctx.sf("u")
+        what = case["what"]
+        if what == "none":
+            res["out"] = guarded(lambda: bool(Integral(u, None) == 0))
+        else:
+            obj = {"interval": lambda: Interval("I", coordinate=sp.Symbol("s")),
+                   "product": lambda: ProductDomain(Interval("I1", coordinate=sp.Symbol("s1")), Interval("I2", coordinate=sp.Symbol("s2"))),
+                   "symbol": lambda: sp.Symbol("Omega")}[what]()
+            res["out"] = guarded(lambda: type(Integral(u, obj)).__name__)
+    elif name == "integral-flags":
+        u, v = ctx.sf("u"), ctx.sf("v")
+        D = case["dom"]
+        if D["t"] == "iface":
+            dom = ctx.domain.interfaces
+            from sympde.topology.basic import Union as U_
+            dom = dom.args[0] if isinstance(dom, U_) else dom
+        else:
+            dom = ctx.dom(D)
+            if D["t"] == "patch":
+                dom = dom.interior
+
+        def f():
+            e = u * v
+            if D["t"] == "iface":
+                from sympde.calculus import minus, plus
+                e = minus(u) * plus(v)
+            i = Integral(e, dom)
+            return {"cls": type(i).__name__, "flags": [i.is_domain_integral, i.is_boundary_integral, i.is_interface_integral],
+                    "domain_same": bool(i.domain == dom), "expr_same": bool(i.expr == e), "nargs": len(i.args)}
+        res["out"] = guarded(f)
+    elif name == "unpack":
+        pool = {"u": ctx.sf("u"), "v": ctx.sf("v"), "F": ctx.vf("F"), "G": ctx.vf("G")}
+        pool["sym"] = sp.Symbol("x")
+        pool["F0"] = pool["F"][0]
+        pool["num"] = sp.Integer(1)
+        args = [pool[n] for n in case["args"]]
+        res["out"] = guarded(lambda: [ser_comp(f) for f in _unpack_functions(args)])
+    elif name == "trials-tests":
+        what = case["what"]
+        u, v, F = ctx.sf("u"), ctx.sf("v"), ctx.vf("F")
+        if what == "symbol":
+            res["out"] = guarded(lambda: _get_trials_tests(sp.Symbol("x"), flatten=True) and None)
+        elif what == "basicexpr":
+            res["out"] = guarded(lambda: _get_trials_tests(BasicExpr(), flatten=True) and None)
+        elif what == "linearexpr":
+            def f():
+                tr, te = _get_trials_tests(LinearExpr((v, F), v + F[0]), flatten=case.get("flatten", True))
+                return {"trials": tr is None, "tests": [ser_comp(x) for x in te] if case.get("flatten", True) else [str(x.name) for x in te]}
+            res["out"] = guarded(f)
+    elif name == "radd-nonzero":
+        u, v = ctx.sf("u"), ctx.sf("v")
+        i = integral(ctx.dom(case["dom"]), u * v)
+        o = {"one": 1, "symbol": sp.Symbol("a"), "sone": sp.Integer(1)}[case["what"]]
+        res["out"] = guarded(lambda: type(o + i).__name__ if not case.get("right") else type(i + o).__name__)
+    elif name in ("trace", "matrix", "basicexpr-arm"):
+        if name == "trace":
+            B = ctx.dom(case["dom"])
+            order = case["order"]
+            e = build_e(case["e"], ctx)
+
+            def f():
+                if order >= 2:
+                    from sympde.topology.space import Trace
+                    return type(TerminalExpr(Trace(e, B, order=order), ctx.lower_domain)).__name__
+                if order == 0:
+                    got = TerminalExpr(trace_0(e, B), ctx.lower_domain)
+                    want = TerminalExpr(e, ctx.lower_domain)
+                    return {"pairs": [[sxs(got), sxs(want)]]}
+                got = TerminalExpr(trace_1(e, B), ctx.lower_domain)
+                M = TerminalExpr(e, ctx.lower_domain)
+                if d == 1:          # the code returns the lowered expression itself (a 1x1 matrix for a vector)
+                    one = lambda z: z[0, 0] if isinstance(z, (sp.Matrix, sp.ImmutableDenseMatrix)) else z  # noqa
+                    return {"pairs": [[sxs(one(got)), sxs(one(M))]], "same_type": type(got).__name__ == type(M).__name__}
+                n = NormalVector("n")
+                comps = [sxs(M[i]) for i in range(d)]
+                nrm = [sxs(n[i]) for i in range(d)]
+                return {"pairs": [[sxs(got), None]], "comps": comps, "normal": nrm}
+            res["out"] = guarded(f)
+        elif name == "matrix":
+            rows = [[build_e(x, ctx) for x in row] for row in case["rows"]]
+
+            def f():
+                got = TerminalExpr(sp.Matrix(rows) if not case.get("immutable") else sp.ImmutableDenseMatrix(rows), ctx.lower_domain)
+                if not isinstance(got, (sp.Matrix, sp.ImmutableDenseMatrix)):
+                    return {"shape": None}
+                pairs = []
+                for i in range(len(rows)):
+                    for j in range(len(rows[0])):
+                        pairs.append([sxs(got[i, j]), sxs(TerminalExpr(rows[i][j], ctx.lower_domain))])
+                return {"shape": [int(got.shape[0]), int(got.shape[1])], "pairs": pairs}
+            res["out"] = guarded(f)
+        else:
+            v = ctx.sf("v")
+            e = build_e(case["e"], ctx)
+            res["out"] = guarded(lambda: {"pairs": [[sxs(TerminalExpr(LinearExpr(v, e), ctx.lower_domain)),
+                                                     sxs(TerminalExpr(e, ctx.lower_domain))]]})
+    elif name == "vector-arm":
+        cls_ = {"tangent": TangentVector, "normal": NormalVector}[case["what"]]
+        vec = cls_("t" if case["what"] == "tangent" else "nn")
+
+        def f():
+            got = TerminalExpr(vec, ctx.lower_domain)
+            ents = []
+            for i in range(got.shape[0]):
+                for j in range(got.shape[1]):
+                    x = got[i, j]
+                    ents.append([type(x.base).__name__, bool(x.base == vec), int(x.indices[0])])
+            return {"shape": [int(got.shape[0]), int(got.shape[1])], "entries": ents}
+        res["out"] = guarded(f)
+    elif name == "abs-arm":
+        u, v = ctx.sf("u"), ctx.sf("v")
+        e = build_e(case["e"], ctx)
+        res["out"] = guarded(lambda: bool(TerminalExpr(sp.Abs(e), ctx.lower_domain) == sp.Abs(TerminalExpr(e, ctx.lower_domain))))
+    elif name == "matrix-form-interface-mapping":
+        u, v = ctx.sf("u"), ctx.sf("v")
+        M1, M2 = Mapping("M1", dim=d), Mapping("M2", dim=d)
+        IM = InterfaceMapping(M1, M2)
+        B = ctx.dom(case["dom"])
+
+        def f():
+            J = IM.jacobian.det() if case.get("det") else IM.jacobian[0, 0]
+            Jm = IM.minus.jacobian.det() if case.get("det") else IM.minus.jacobian[0, 0]
+            e, em = u * v * J, u * v * Jm
+            got = _to_matrix_form(e, trials=(u,), tests=(v,), domain=B)
+            want = _to_matrix_form(em, trials=(u,), tests=(v,), domain=B)
+            return {"shape": [int(got.shape[0]), int(got.shape[1])], "no_interface_mapping": not got.atoms(InterfaceMapping),
+                    "has_before": bool(e.atoms(InterfaceMapping)), "equals_minus": bool(got == want)}
+        res["out"] = guarded(f)
+    elif name == "foreign-domain":
+        # an entry of `domain` whose interior is not a domain at all: the final loop must refuse it (TypeError)
+        from sympde.expr import Functional
+        f_ = ctx.sf("f")
+        F = Functional(f_ ** 2, ctx.dom(case["dom"]) if case["dom"]["t"] != "domain" else ctx.domain)
+
+        class Foreign:
+            interior = sp.Symbol("not_a_domain")
+            dim = d
+            mapping = None
+        if F.expr.is_Add:
+            F = Functional(f_ ** 2, ctx.patches[0])
+        F._domain = Foreign()
+        res["out"] = guarded(lambda: len(TerminalExpr(F, ctx.domain)))
+    else:
+        res["out"] = {"exc": "unknown-probe"}
+    return res
+
+
 # ---------------------------------------------------------------------------- one case
 def errkind(e):
     for cls, name in ((NotImplementedError, "not-implemented"), (AssertionError, "assertion"), (TypeError, "type"),
@@ -436,20 +661,62 @@ def run_case(case):
         trials = ctx.arguments(case.get("trials", []))
         tests = ctx.arguments(case.get("tests", []))
 
-        def walk(X, coefs):
-            # coefs: the scalar factors (already serialised) that the enclosing `c * (...)` / `a - b` nodes put on this leaf
-            if X["k"] == "add":
-                a = walk(X["a"], coefs)
-                b = walk(X["b"], coefs)
+        out["coefs"] = {}
+
+        def eff(Lj, wraps):
+            # the integrand this leaf contributes, by distributivity: the operators met on the way from the root
+            # (outermost first) applied to the lowered integrand; computed by the harness, not by the library
+            for kind, cj in reversed(wraps):
+                if kind == "mul":
+                    Lj = {"k": "mul", "a": [cj, Lj]}
+                elif kind == "div":       # x / c, and c / x as the library reads it
+                    Lj = {"k": "mul", "a": [Lj, {"k": "pow", "b": cj, "e": {"k": "num", "p": -1, "q": 1}}]}
+                else:
+                    Lj = {"k": "mul", "a": [{"k": "num", "p": -1, "q": 1}, Lj]}
+            return Lj
+
+        def coef(X, path):
+            c = build_e(X["c"], ctx)
+            cj = ser_scalar(c)
+            out["coefs"][path] = cj
+            return c, cj
+
+        def walk(X, wraps, path):
+            k = X["k"]
+            if k == "add":
+                a = walk(X["a"], wraps, path + "a")
+                b = walk(X["b"], wraps, path + "b")
                 return a + b
-            if X["k"] == "sub":
-                a = walk(X["a"], coefs)
-                b = walk(X["b"], coefs + [{"k": "num", "p": -1, "q": 1}])
+            if k == "sub":
+                a = walk(X["a"], wraps, path + "a")
+                b = walk(X["b"], wraps + [("neg", None)], path + "b")
                 return a - b
-            if X["k"] == "scale":
-                c = build_e(X["c"], ctx)
-                inner = walk(X["x"], coefs + [ser_scalar(c)])
+            if k == "scale":
+                c, cj = coef(X, path)
+                inner = walk(X["x"], wraps + [("mul", cj)], path + "x")
                 return inner * c if X.get("right") else c * inner
+            if k == "div":
+                c, cj = coef(X, path)
+                inner = walk(X["x"], wraps + [("div", cj)], path + "x")
+                return inner / c
+            if k == "rdiv":
+                c, cj = coef(X, path)
+                inner = walk(X["x"], wraps + [("div", cj)], path + "x")
+                if inner == 0:
+                    raise RdivRefused("zero")      # c / 0: the operand cancelled to the number 0, not a statement about forms
+                try:
+                    return c / inner
+                except TypeError:
+                    # the library reads c / I as I / c today; refusing the quotient is the other acceptable behaviour
+                    raise RdivRefused()
+            if k == "neg":
+                inner = walk(X["x"], wraps + [("neg", None)], path + "x")
+                return -inner
+            if k == "zero":
+                from sympy import S
+                return S.Zero if X.get("sym") else 0
+            if k == "sum":
+                return sum([walk(x, wraps, path + "s%d" % i) for i, x in enumerate(X["xs"])])
             d = ctx.dom(X["dom"])
             e = build_e(X["e"], ctx)
             try:
@@ -460,20 +727,21 @@ def run_case(case):
             if isinstance(L, (Matrix, ImmutableDenseMatrix, Tuple, tuple, list)):
                 raise LeafError("the integrand does not lower to a scalar: %s" % type(L).__name__)
             Lj = ser_scalar(L)
-            if coefs:
-                Lj = {"k": "mul", "a": list(coefs) + [Lj]}
-            out["leaves"].append({"members": members_of(d), "L": Lj})
+            out["leaves"].append({"members": members_of(d), "L": Lj, "Leff": eff(Lj, wraps)})
             if case["kind"] == "functional":
                 return (e, d)
             return integral(d, e)
 
-        expr = walk(case["x"], [])
+        expr = walk(case["x"], [], "")
         if case["kind"] == "bilinear":
             form = BilinearForm((trials, tests), expr)
         elif case["kind"] == "linear":
             form = LinearForm(tests, expr)
         else:
             form = Functional(expr[0], expr[1])
+        if case.get("raw_domain") and isinstance(form, BasicForm):
+            from sympde.topology import Union
+            form._domain = Union(*[ctx.rawdom(D) for D in case["raw_domain"]])
         stage = "lower"
         global TRACER
         if TRACER is None:
@@ -499,8 +767,10 @@ def run_case(case):
         for k in res:
             if not isinstance(k, KernelExpression):
                 return {"err": "result-not-a-kernel", "msg": type(k).__name__, "stage": stage, "leaves": out["leaves"]}
-            ks.append({"cls": type(k).__name__, "target": ser_region(k.target), "M": ser_matrix(k.expr)})
+            ks.append({"cls": type(k).__name__, "target": ser_target(k.target), "M": ser_matrix(k.expr)})
         out["kernels"] = ks
+    except RdivRefused as e:
+        return {"err": "rdiv-of-zero" if e.args else "rdiv-refused", "stage": stage, "leaves": out["leaves"]}
     except LeafError as e:
         # the lowering of the integrand itself (an expression, C01) failed: not a statement about forms
         return {"err": "leaf-lowering", "msg": str(e)[:300], "stage": stage, "leaves": out["leaves"]}
@@ -521,7 +791,7 @@ def main():
     res = []
     for case in payload["cases"]:
         try:
-            res.append(run_case(case))
+            res.append(run_probe(case) if case.get("kind") == "probe" else run_case(case))
         except Exception:  # noqa
             res.append({"crash": traceback.format_exc()[-1500:]})
     json.dump({"results": res}, open(sys.argv[2], "w"))
